@@ -35,6 +35,8 @@ class Ctx:
         if len(self.mac.all_bodies) < 10:
             raise facts.Broken('cadence_macros: only %d bodies extracted (floor 10)' % len(self.mac.all_bodies))
         self._wit = {}
+        from . import symb
+        symb.set_crates([self.cad, self.mac])
         self.witness_log = {}
 
     def witness(self, name, gen=None):
